@@ -1,6 +1,7 @@
 package tbench
 
 import (
+	"bufio"
 	"bytes"
 	"context"
 	"crypto/tls"
@@ -208,6 +209,134 @@ func (c *HTTPClient) JSON(params url.Values, wait time.Duration) (res Result) {
 	return c.Do(req)
 }
 
+// pieceReader hands out a body piece by piece.  It is deliberately not one of
+// the reader types whose length net/http can see, so the request is sent
+// without a declared length.
+type pieceReader struct {
+	pieces [][]byte
+}
+
+// Read implements the io.Reader interface for *pieceReader.
+func (r *pieceReader) Read(p []byte) (n int, err error) {
+	for len(r.pieces) > 0 && len(r.pieces[0]) == 0 {
+		r.pieces = r.pieces[1:]
+	}
+
+	if len(r.pieces) == 0 {
+		return 0, io.EOF
+	}
+
+	n = copy(p, r.pieces[0])
+	r.pieces[0] = r.pieces[0][n:]
+
+	return n, nil
+}
+
+// SplitPieces cuts b into n pieces of nearly equal size (fewer if b is
+// shorter than n bytes).
+func SplitPieces(b []byte, n int) (pieces [][]byte) {
+	if n < 1 {
+		n = 1
+	}
+
+	for i := 0; i < n; i++ {
+		lo, hi := len(b)*i/n, len(b)*(i+1)/n
+		if hi > lo {
+			pieces = append(pieces, b[lo:hi])
+		}
+	}
+
+	return pieces
+}
+
+// PostUnsized sends msg as the body of a POST request to /dns-query without
+// announcing its length: the body is streamed in the given number of pieces,
+// which makes an HTTP/1.1 client use "Transfer-Encoding: chunked" (one chunk
+// per piece) and an HTTP/2 or HTTP/3 client omit content-length.
+func (c *HTTPClient) PostUnsized(msg []byte, pieces int, wait time.Duration) (res Result) {
+	ctx, cancel := context.WithTimeout(context.Background(), wait)
+	defer cancel()
+
+	body := &pieceReader{pieces: SplitPieces(msg, pieces)}
+	req, err := http.NewRequestWithContext(ctx, http.MethodPost, c.base+dnsserver.PathDoH, body)
+	if err != nil {
+		return Result{Outcome: Failed, Err: err.Error()}
+	}
+
+	// Unknown length, whatever the body type.
+	req.ContentLength = -1
+	req.Header.Set("Content-Type", dnsserver.MimeTypeDoH)
+	req.Header.Set("Accept", dnsserver.MimeTypeDoH)
+
+	return c.Do(req)
+}
+
+// ChunkedPOST renders, byte by byte, an HTTP/1.1 POST request to path whose
+// body is sent with "Transfer-Encoding: chunked", one chunk per element of
+// chunks (empty elements are skipped, since an empty chunk ends the body).
+func ChunkedPOST(host, path string, chunks [][]byte) (request []byte) {
+	var b bytes.Buffer
+	fmt.Fprintf(&b, "POST %s HTTP/1.1\r\nHost: %s\r\n", path, host)
+	fmt.Fprintf(&b, "Content-Type: %s\r\nAccept: %s\r\n", dnsserver.MimeTypeDoH, dnsserver.MimeTypeDoH)
+	b.WriteString("Transfer-Encoding: chunked\r\nConnection: close\r\n\r\n")
+	for _, c := range chunks {
+		if len(c) == 0 {
+			continue
+		}
+
+		fmt.Fprintf(&b, "%x\r\n", len(c))
+		b.Write(c)
+		b.WriteString("\r\n")
+	}
+	b.WriteString("0\r\n\r\n")
+
+	return b.Bytes()
+}
+
+// RawHTTP1 opens a new connection to the TLS (HTTP1TLS) or plain (HTTPPlain)
+// DoH instance, writes exactly request, which must be a complete HTTP/1.1
+// request, and parses one response.
+func (b *Bench) RawHTTP1(v HTTPVariant, request []byte, wait time.Duration) (res Result) {
+	var (
+		conn net.Conn
+		err  error
+	)
+
+	switch v {
+	case HTTP1TLS:
+		d := &net.Dialer{Timeout: 10 * time.Second}
+		conn, err = tls.DialWithDialer(d, "tcp", b.DoHAddr, b.PKI.ClientTLS("http/1.1"))
+	case HTTPPlain:
+		conn, err = dial("tcp", b.DoHPlainAddr, 10*time.Second)
+	default:
+		return Result{Outcome: Failed, Err: fmt.Sprintf("raw http/1.1 is not available for variant %q", v)}
+	}
+	if err != nil {
+		return Result{Outcome: Failed, Err: "dial: " + err.Error()}
+	}
+	defer func() { _ = conn.Close() }()
+
+	_ = conn.SetDeadline(time.Now().Add(wait))
+	_, err = conn.Write(request)
+	if err != nil {
+		return Result{Outcome: Failed, Err: "write: " + err.Error()}
+	}
+
+	resp, err := http.ReadResponse(bufio.NewReader(conn), nil)
+	if err != nil {
+		switch {
+		case isTimeout(err):
+			return Result{Outcome: Timeout, Err: err.Error()}
+		case isPeerClose(err):
+			return Result{Outcome: Closed, Err: err.Error()}
+		default:
+			return Result{Outcome: Failed, Err: "reading response: " + err.Error()}
+		}
+	}
+
+	return resultFromResponse(resp)
+}
+
 // Do performs an arbitrary request and classifies the response: status 200
 // is Answered (a body of type application/dns-message is the one response; any
 // other body is only in Body), other statuses are HTTPStatus.
@@ -220,6 +349,13 @@ func (c *HTTPClient) Do(req *http.Request) (res Result) {
 
 		return Result{Outcome: Failed, Err: err.Error()}
 	}
+
+	return resultFromResponse(resp)
+}
+
+// resultFromResponse reads the body of resp, closes it and classifies the
+// response.
+func resultFromResponse(resp *http.Response) (res Result) {
 	defer func() { _ = resp.Body.Close() }()
 
 	body, err := io.ReadAll(resp.Body)
